@@ -108,6 +108,26 @@ func corpus() []rescorr.Case {
   leaf start { type string; }
 }
 `),
+		// prefixes that are also module names: only the prefix statements count
+		mk("prefix-is-a-module-name", "test.yang", `module test { namespace "urn:t"; prefix t;
+  import bar { prefix b; } import baz { prefix bar; }
+  leaf ctx { type string; }
+  augment "/bar:fish" { leaf extra { type string; } }
+}
+`, "tset.yang", `module tset { namespace "urn:ts"; prefix baz;
+  import baz { prefix bar; } import bar { prefix tset; }
+  leaf ctx { type string; }
+  augment "/tset:fish" { leaf extra2 { type string; } }
+}
+`, "bar.yang", `module bar { namespace "urn:bar"; prefix baz; import baz { prefix bar; }
+  container fish { leaf chips { type string; } }
+  leaf conflict { type string; }
+}
+`, "baz.yang", `module baz { namespace "urn:baz"; prefix bar; import bar { prefix baz; }
+  container fish { leaf bones { type string; } }
+  leaf conflict { type string; }
+}
+`),
 		// ---- documented limits
 		mk("limit:name-with-slash", "m.yang", `module m { namespace "urn:m"; prefix pm;
   container "a/b" { leaf x { type string; } }
